@@ -317,6 +317,19 @@ Local Close Scope Z_scope.
 (* ================================================================================================ *)
 (* Part 3: the two-site gate on the store                                                             *)
 (* ================================================================================================ *)
+Lemma NoDup_app_intro {A} (a b : list A) : NoDup a -> NoDup b -> (forall x, In x a -> In x b -> False) -> NoDup (a ++ b).
+Proof.
+  induction a as [|x t IH]; intros Ha Hb Hd; [exact Hb|]. cbn. inversion Ha; subst. constructor.
+  - intros Hin. apply in_app_or in Hin. destruct Hin as [Hin|Hin]; [contradiction|]. apply (Hd x); [left; reflexivity|exact Hin].
+  - apply IH; auto. intros y Hy. apply Hd. right. exact Hy.
+Qed.
+
+Lemma perm5 {X} (A B C D E : list X) : Permutation (A ++ B ++ C ++ D ++ E) (C ++ A ++ D ++ B ++ E).
+Proof.
+  rewrite (Permutation_app_swap_app B C). rewrite (Permutation_app_swap_app A C).
+  do 2 apply Permutation_app_head. apply Permutation_app_swap_app.
+Qed.
+
 (* ---- positions in a list without duplicates -------------------------------------------------------- *)
 Lemma index_of_mid x pre rest : ~ In x pre -> index_of x (pre ++ x :: rest) = Some (length pre).
 Proof.
@@ -467,8 +480,8 @@ Theorem lbc_names a na b nb u v : pair_ok a na b nb -> lbc_nodes a na b nb = Som
 Proof.
   intros Hok H. unfold lbc_nodes in H. pose proof (po_va _ _ _ _ Hok) as Hva. pose proof (po_vb _ _ _ _ Hok) as Hvb.
   assert (Hv1 : 1 <= nvirt na /\ 1 <= nvirt nb).
-  { destruct (po_adj _ _ _ _ Hok) as [(Hin & Hp & _)|(Hin & Hp & _)]; apply remove_first_length in Hin;
-      unfold nvirt, nparents; rewrite Hp; lia. }
+  { clear H. destruct (po_adj _ _ _ _ Hok) as [(Hin & Hp & _)|(Hin & Hp & _)]; apply remove_first_length in Hin;
+      unfold nvirt, nparents; rewrite Hp; split; destruct (parent na), (parent nb); unfold id in *; lia. }
   assert (Hopen : nlegs na + nlegs nb - 2 - (nvirt na + nvirt nb - 2 + nopen na) = nopen nb).
   { unfold nopen. lia. }
   destruct (po_adj _ _ _ _ Hok) as [(Hin & Hp & Hnin & _)|(Hin & Hp & Hnin & _)].
@@ -500,7 +513,7 @@ Proof.
     rewrite Hpp in Hnp. rewrite Hpc, Hcc in Hnc.
     destruct (remove_first_NoDup b (children na) (po_nda _ _ _ _ Hok)) as (Hnd1 & Hnb & Hincl).
     assert (Hnd : NoDup (children nn)).
-    { rewrite Hnc. apply NoDup_app_iff. repeat split; auto; [apply (po_ndb _ _ _ _ Hok)|].
+    { rewrite Hnc. apply NoDup_app_intro; auto; [apply (po_ndb _ _ _ _ Hok)|].
       intros x H1 H2. apply (po_disj _ _ _ _ Hok x); auto. }
     assert (Hpar : forall p, parent nn = Some p -> ~ In p (children nn)).
     { intros p Hp. rewrite Hnp in Hp. destruct (po_para _ _ _ _ Hok p Hp) as [H1 H2]. rewrite Hnc. intros Hi.
@@ -514,8 +527,8 @@ Proof.
     assert (Hnpar : nparents nn = nparents na) by (unfold nparents; rewrite Hnp; reflexivity).
     pose proof (remove_first_length _ _ Hin) as Hlen.
     assert (Hpb : parent nb = Some a) by (destruct (po_adj _ _ _ _ Hok) as [(_ & ? & _)|(_ & _ & ? & _)]; [assumption|contradiction]).
-    set (k1 := length (remove_first b (children na))) in *. set (k2 := length (children nb)) in *.
-    assert (Hva' : nvirt na = nparents na + S k1) by (unfold nvirt; lia).
+    change (@length id) with (@length nat) in *. set (k1 := @length nat (remove_first b (children na))) in *. set (k2 := @length nat (children nb)) in *.
+    assert (Hva' : nvirt na = nparents na + S k1) by (unfold nvirt; change (@length id) with (@length nat); lia).
     assert (Hvb' : nvirt nb = 1 + k2) by (unfold nvirt, nparents; rewrite Hpb; reflexivity).
     assert (Hpl : (match parent na with Some _ => [0] | None => [] end) = seq 0 (nparents na)).
     { unfold nparents. destruct (parent na); reflexivity. }
@@ -525,7 +538,7 @@ Proof.
     rewrite <- !app_assoc.
     (* seq 0 np ++ seq np k1 ++ seq tv oa ++ seq (np+k1) k2 ++ seq (tv+oa) ob *)
     rewrite (Permutation_app_swap_app (seq (nparents na + k1 + k2) (nopen na)) (seq (nparents na + k1) k2)).
-    rewrite !app_assoc. rewrite <- !seq_app. apply Permutation_refl.
+    rewrite !app_assoc. rewrite !seq_app. cbn [Nat.add]. apply Permutation_refl.
   - (* b is the parent *)
     assert (Hnb : ~ In b (children na)) by (destruct (po_adj _ _ _ _ Hok) as [(? & _ & _ & _)|(_ & _ & ? & _)]; [|assumption];
       destruct (po_adj _ _ _ _ Hok) as [(_ & _ & Hx & _)|(_ & _ & Hx & _)]; [contradiction|assumption]).
@@ -533,7 +546,7 @@ Proof.
     rewrite Hpp in Hnp. rewrite Hpc, Hcc in Hnc.
     destruct (remove_first_NoDup a (children nb) (po_ndb _ _ _ _ Hok)) as (Hnd1 & Hna & Hincl).
     assert (Hnd : NoDup (children nn)).
-    { rewrite Hnc. apply NoDup_app_iff. repeat split; auto; [apply (po_nda _ _ _ _ Hok)|].
+    { rewrite Hnc. apply NoDup_app_intro; auto; [apply (po_nda _ _ _ _ Hok)|].
       intros x H1 H2. apply (po_disj _ _ _ _ Hok x); auto. }
     assert (Hpar : forall p, parent nn = Some p -> ~ In p (children nn)).
     { intros p Hp. rewrite Hnp in Hp. destruct (po_parb _ _ _ _ Hok p Hp) as [H1 H2]. rewrite Hnc. intros Hi.
@@ -547,8 +560,8 @@ Proof.
     assert (Hnpar : nparents nn = nparents nb) by (unfold nparents; rewrite Hnp; reflexivity).
     pose proof (remove_first_length _ _ Hin) as Hlen.
     assert (Hpa : parent na = Some b) by (destruct (po_adj _ _ _ _ Hok) as [(? & _)|(_ & ? & _)]; [contradiction|assumption]).
-    set (k2 := length (remove_first a (children nb))) in *. set (k1 := length (children na)) in *.
-    assert (Hvb' : nvirt nb = nparents nb + S k2) by (unfold nvirt; lia).
+    change (@length id) with (@length nat) in *. set (k2 := @length nat (remove_first a (children nb))) in *. set (k1 := @length nat (children na)) in *.
+    assert (Hvb' : nvirt nb = nparents nb + S k2) by (unfold nvirt; change (@length id) with (@length nat); lia).
     assert (Hva' : nvirt na = 1 + k1) by (unfold nvirt, nparents; rewrite Hpa; reflexivity).
     assert (Hpl : (match parent nb with Some _ => [0] | None => [] end) = seq 0 (nparents nb)).
     { unfold nparents. destruct (parent nb); reflexivity. }
@@ -557,10 +570,305 @@ Proof.
     replace (nlegs na + nlegs nb - 2) with (nparents nb + k1 + k2 + nopen na + nopen nb) by (unfold nopen; lia).
     rewrite <- !app_assoc.
     (* seq np k1 ++ seq tv oa ++ seq 0 np ++ seq (np+k1) k2 ++ seq (tv+oa) ob *)
-    rewrite (Permutation_app_swap_app (seq (nparents nb) k1) (seq (nparents nb + k1 + k2) (nopen na))).
-    rewrite (Permutation_app_swap_app (seq (nparents nb + k1 + k2) (nopen na)) (seq 0 (nparents nb))).
-    rewrite (Permutation_app_swap_app (seq (nparents nb + k1 + k2) (nopen na)) (seq (nparents nb) k1)).
-    rewrite (Permutation_app_swap_app (seq (nparents nb) k1) (seq 0 (nparents nb))).
-    rewrite (Permutation_app_swap_app (seq (nparents nb + k1 + k2) (nopen na)) (seq (nparents nb + k1) k2)).
-    rewrite !app_assoc. rewrite <- !seq_app. apply Permutation_refl.
+    rewrite perm5.
+    rewrite !app_assoc. rewrite !seq_app. cbn [Nat.add]. apply Permutation_refl.
+Qed.
+
+(* ---- split_nodes: the parent / children it gives the two new nodes ----------------------------------- *)
+Lemma fresh_wires_nodes : forall ds s, nodes (fst (fresh_wires s ds)) = nodes s /\ root (fst (fresh_wires s ds)) = root s.
+Proof.
+  induction ds as [|d t IH]; intros s; cbn; [auto|].
+  destruct (fresh_wires _ t) as [s2 ws] eqn:E. cbn.
+  specialize (IH {| nodes := nodes s; tensors := tensors s; root := root s; dims := dims s ++ [(next_wire s, d)];
+                    next_wire := S (next_wire s); next_atom := next_atom s; defs := defs s; atab := atab s |}).
+  rewrite E in IH. cbn in IH. exact IH.
+Qed.
+
+Lemma access_nodes s n s1 nd t : access s n = Some (s1, nd, t) ->
+  nodes s1 = aset n nd (nodes s) /\ root s1 = root s /\
+  exists nd0, aget n (nodes s) = Some nd0 /\ parent nd = parent nd0 /\ children nd = children nd0.
+Proof.
+  unfold access. destruct (aget n (nodes s)) as [nd0|] eqn:E; [|discriminate].
+  destruct (aget n (tensors s)); [|discriminate]. intros [= <- <- <-]. cbn. repeat split. exists nd0. auto.
+Qed.
+
+Lemma aget_adel_other {V} k k2 (l : list (nat * V)) : k2 <> k -> aget k2 (adel k l) = aget k2 l.
+Proof.
+  intros Hne. induction l as [|[k' v] t IH]; [reflexivity|]. cbn.
+  destruct (Nat.eqb_spec k k') as [->|Hk].
+  - destruct (Nat.eqb_spec k2 k'); [contradiction|reflexivity].
+  - cbn. rewrite IH. reflexivity.
+Qed.
+
+Definition risn_step (new old : id) (acc : option (list (id * node))) (x : id) : option (list (id * node)) :=
+  match acc with
+  | None => None
+  | Some l' => match aget x l' with
+               | Some xn => match replace_neighbour xn old new with
+                            | Some xn' => Some (aset x xn' l')
+                            | None => None
+                            end
+               | None => None
+               end
+  end.
+
+Lemma risn_unfold l new old ns : replace_in_some_neighbours l new old ns = fold_left (risn_step new old) ns (Some l).
+Proof. reflexivity. Qed.
+
+Lemma risn_none new old ns : fold_left (risn_step new old) ns None = None.
+Proof. induction ns; [reflexivity|exact IHns]. Qed.
+
+(* nodes that are not among the listed neighbours are not touched *)
+Lemma risn_other new old : forall ns l l' k, replace_in_some_neighbours l new old ns = Some l' -> ~ In k ns -> aget k l' = aget k l.
+Proof.
+  intros ns l l' k H. rewrite risn_unfold in H. revert l H. induction ns as [|x t IH]; intros l H Hk; cbn in H.
+  - injection H as <-. reflexivity.
+  - destruct (aget x l) as [xn|]; [|rewrite risn_none in H; discriminate].
+    destruct (replace_neighbour xn old new) as [xn'|]; [|rewrite risn_none in H; discriminate].
+    rewrite (IH _ H) by (intros Hin; apply Hk; right; exact Hin).
+    apply aget_aset_other. intros ->. apply Hk. left. reflexivity.
+Qed.
+
+Theorem split_nodes_structure s n o i oid iid kind m rb s' :
+  split_nodes s n o i oid iid kind m rb = Some s' ->
+  n <> oid -> n <> iid ->
+  ~ In oid (find_all_neighbour_ids o ++ find_all_neighbour_ids i) ->
+  ~ In iid (find_all_neighbour_ids o ++ find_all_neighbour_ids i) ->
+  let in_above := ls_root i || (match ls_parent i with Some _ => true | None => false end) in
+  exists on inn,
+    aget oid (nodes s') = Some on /\ aget iid (nodes s') = Some inn /\ oid <> iid /\
+    parent inn = (match ls_parent i with Some p => Some p | None => if ls_root i then None else Some oid end) /\
+    children inn = (if in_above then [oid] else []) ++ ls_children i /\
+    parent on = (match ls_parent o with Some p => Some p | None => if ls_root o then None else Some iid end) /\
+    children on = (if in_above then [] else [iid]) ++ ls_children o /\
+    root s' = (if ls_root i then Some iid else if ls_root o then Some oid else root s).
+Proof.
+  intros H Hno Hni Hoid Hiid in_above.
+  unfold split_nodes in H.
+  destruct (access s n) as [[[s1 nd] t]|] eqn:Hacc; [|discriminate].
+  destruct (find_leg_values nd o) as [ol|]; [|discriminate].
+  destruct (find_leg_values nd i) as [il|]; [|discriminate].
+  match type of H with (if ?c then None else _) = _ => destruct c; [discriminate|] end.
+  destruct (Nat.eqb_spec oid iid) as [|Hoi]; [discriminate|].
+  match type of H with (if ?c then None else _) = _ => destruct c; [discriminate|] end.
+  match type of H with (let '(_, _) := ?e in _) = _ => destruct e as [s2 bw] eqn:Hfw end.
+  unfold fresh_atom in H. cbv beta iota zeta in H.
+  repeat match type of H with (if ?c then None else _) = _ => destruct c; [discriminate|] end.
+  match type of H with match ?e with Some _ => _ | None => None end = _ => destruct e as [in1|] eqn:Hin1; [|discriminate] end.
+  match type of H with match ?e with Some _ => _ | None => None end = _ => destruct e as [in2|] eqn:Hin2; [|discriminate] end.
+  match type of H with match ?e with Some _ => _ | None => None end = _ => destruct e as [on1|] eqn:Hon1; [|discriminate] end.
+  match type of H with match ?e with Some _ => _ | None => None end = _ => destruct e as [on2|] eqn:Hon2; [|discriminate] end.
+  match type of H with match ?e with Some _ => _ | None => None end = _ => destruct e as [l1|] eqn:Hl1; [|discriminate] end.
+  match type of H with match ?e with Some _ => _ | None => None end = _ => destruct e as [l2|] eqn:Hl2; [|discriminate] end.
+  destruct (Nat.eqb_spec n oid) as [|_]; [contradiction|]. destruct (Nat.eqb_spec n iid) as [|_]; [contradiction|].
+  cbn [orb] in H. injection H as <-.
+  cbn [nodes root upd_tensors upd_nodes set_root add_def] in *.
+  apply open_legs_to_children_structure in Hin2, Hon2. destruct Hin2 as [Hin2p Hin2c]. destruct Hon2 as [Hon2p Hon2c].
+  exists on2, in2.
+  assert (Ho : aget oid (adel n l2) = Some on2).
+  { rewrite aget_adel_other by congruence.
+    rewrite (risn_other _ _ _ _ _ _ Hl2) by (intros Hx; apply Hoid; apply in_or_app; right; exact Hx).
+    rewrite (risn_other _ _ _ _ _ _ Hl1) by (intros Hx; apply Hoid; apply in_or_app; left; exact Hx).
+    rewrite aget_aset_other by congruence. apply aget_aset_same. }
+  assert (Hi : aget iid (adel n l2) = Some in2).
+  { rewrite aget_adel_other by congruence.
+    rewrite (risn_other _ _ _ _ _ _ Hl2) by (intros Hx; apply Hiid; apply in_or_app; right; exact Hx).
+    rewrite (risn_other _ _ _ _ _ _ Hl1) by (intros Hx; apply Hiid; apply in_or_app; left; exact Hx).
+    apply aget_aset_same. }
+  split; [exact Ho|]. split; [exact Hi|]. split; [exact Hoi|].
+  rewrite Hin2p, Hin2c, Hon2p, Hon2c. rewrite !map_app, !map_fst_enum_from.
+  destruct (access_nodes _ _ _ _ _ Hacc) as (_ & Hr1 & _). match type of Hfw with fresh_wires ?a ?b = _ => pose proof (fresh_wires_nodes b a) as Hfw' end. rewrite Hfw in Hfw'. cbn [fst] in Hfw'.
+  destruct Hfw' as [_ Hr2].
+  subst in_above.
+  destruct (ls_parent i) as [ip|], (ls_root i), (ls_parent o) as [op|], (ls_root o); cbn [orb andb negb] in *;
+    try discriminate;
+    repeat match goal with
+           | Hx : open_leg_to_parent _ _ _ = Some _ |- _ => apply open_leg_to_parent_structure in Hx; cbn in Hx; destruct Hx as [? ?]
+           | Hx : Some _ = Some _ |- _ => injection Hx as <-
+           end;
+    repeat match goal with Hx : children _ = [] |- _ => rewrite Hx end;
+    cbn [map fst app parent children new_node];
+    repeat split; try congruence.
+Qed.
+
+Lemma in_nbr_ids x ls : In x (find_all_neighbour_ids ls) <-> ls_parent ls = Some x \/ In x (ls_children ls).
+Proof.
+  unfold find_all_neighbour_ids. rewrite in_app_iff. destruct (ls_parent ls) as [p|]; cbn; split.
+  - intros [[->|[]]|H]; auto.
+  - intros [[= ->]|H]; auto.
+  - intros [[]|H]; auto.
+  - intros [H|H]; [discriminate|auto].
+Qed.
+
+(* the split with the recorded specifications gives both nodes back: same identifiers, the same
+   parent, the same children up to order (the partner comes first), the root where it was *)
+Theorem two_site_split_restores s2 contr a na b nb u v kind m rb s3 :
+  pair_ok a na b nb -> lbc_nodes a na b nb = Some (u, v) ->
+  contr <> a -> contr <> b ->
+  split_nodes s2 contr u v a b kind m rb = Some s3 ->
+  exists na' nb', aget a (nodes s3) = Some na' /\ aget b (nodes s3) = Some nb' /\
+    parent na' = parent na /\ Permutation (children na') (children na) /\
+    parent nb' = parent nb /\ Permutation (children nb') (children nb) /\
+    root s3 = (if is_root na then Some a else if is_root nb then Some b else root s2).
+Proof.
+  intros Hok Hl Hca Hcb Hs.
+  destruct (lbc_names _ _ _ _ _ _ Hok Hl) as (_ & _ & Hcase).
+  destruct (remove_first_NoDup b (children na) (po_nda _ _ _ _ Hok)) as (_ & Hrb & Hib).
+  destruct (remove_first_NoDup a (children nb) (po_ndb _ _ _ _ Hok)) as (_ & Hra & Hia).
+  destruct (po_selfa _ _ _ _ Hok) as [Hsa1 Hsa2]. destruct (po_selfb _ _ _ _ Hok) as [Hsb1 Hsb2].
+  assert (Hna : ~ In a (find_all_neighbour_ids u ++ find_all_neighbour_ids v)).
+  { rewrite in_app_iff, !in_nbr_ids.
+    destruct Hcase as [(Hin & -> & -> & _ & -> & -> & _)|(Hin & -> & -> & _ & -> & -> & _)].
+    - destruct (po_adj _ _ _ _ Hok) as [(_ & _ & Hx & _)|(_ & _ & Hx & _)]; [|contradiction].
+      intros [[H|H]|[H|H]]; try discriminate; auto.
+    - destruct (po_adj _ _ _ _ Hok) as [(Hx & _)|(_ & _ & _ & Hx)].
+      + destruct (po_adj _ _ _ _ Hok) as [(_ & _ & Hy & _)|(_ & _ & Hy & _)]; contradiction.
+      + intros [[H|H]|[H|H]]; try discriminate; auto. }
+  assert (Hnb : ~ In b (find_all_neighbour_ids u ++ find_all_neighbour_ids v)).
+  { rewrite in_app_iff, !in_nbr_ids.
+    destruct Hcase as [(Hin & -> & -> & _ & -> & -> & _)|(Hin & -> & -> & _ & -> & -> & _)].
+    - destruct (po_adj _ _ _ _ Hok) as [(_ & _ & _ & Hx)|(_ & _ & Hx & _)]; [|contradiction].
+      intros [[H|H]|[H|H]]; try discriminate; auto.
+    - destruct (po_adj _ _ _ _ Hok) as [(_ & _ & Hy & _)|(_ & _ & Hx & _)]; [contradiction|].
+      intros [[H|H]|[H|H]]; try discriminate; auto. }
+  destruct (split_nodes_structure _ _ _ _ _ _ _ _ _ _ Hs Hca Hcb Hna Hnb) as (on & inn & Ho & Hi & _ & Hip & Hic & Hop & Hoc & Hr).
+  exists on, inn. split; [exact Ho|]. split; [exact Hi|].
+  destruct Hcase as [(Hin & Hup & Huc & Hur & Hvp & Hvc & Hvr)|(Hin & Hup & Huc & Hur & Hvp & Hvc & Hvr)];
+    rewrite Hup, Huc, Hur, Hvp, Hvc, Hvr in *; cbn [orb] in *.
+  - (* a above b *)
+    assert (Hpb : parent nb = Some a) by (destruct (po_adj _ _ _ _ Hok) as [(_ & ? & _)|(_ & _ & ? & _)]; [assumption|contradiction]).
+    rewrite Hip, Hic, Hop, Hoc, Hr. cbn [app]. repeat split.
+    + unfold is_root. destruct (parent na); reflexivity.
+    + symmetry. apply remove_first_perm. exact Hin.
+    + symmetry. exact Hpb.
+    + apply Permutation_refl.
+    + unfold is_root. rewrite Hpb. destruct (parent na); reflexivity.
+  - (* b above a *)
+    assert (Hpa : parent na = Some b) by (destruct (po_adj _ _ _ _ Hok) as [(? & _)|(_ & ? & _)]; [|assumption];
+      destruct (po_adj _ _ _ _ Hok) as [(_ & _ & Hy & _)|(_ & _ & Hy & _)]; contradiction).
+    assert (Hab : is_root nb || match parent nb with Some _ => true | None => false end = true)
+      by (unfold is_root; destruct (parent nb); reflexivity).
+    rewrite Hab in *. rewrite Hip, Hic, Hop, Hoc, Hr. cbn [app]. repeat split.
+    + symmetry. exact Hpa.
+    + apply Permutation_refl.
+    + unfold is_root. destruct (parent nb); reflexivity.
+    + symmetry. apply remove_first_perm. exact Hin.
+    + unfold is_root. rewrite Hpa. destruct (parent nb); reflexivity.
+Qed.
+
+(* ---- the same statements on the store programs ------------------------------------------------------ *)
+Lemma access_node_record s n s1 nd t nd0 : access s n = Some (s1, nd, t) -> aget n (nodes s) = Some nd0 ->
+  parent nd = parent nd0 /\ children nd = children nd0.
+Proof.
+  intros H H0. destruct (access_nodes _ _ _ _ _ H) as (_ & _ & nd1 & E & Hp & Hc). rewrite H0 in E. injection E as <-. auto.
+Qed.
+
+(* after contract_nodes the node stored under the new identifier is the one _create_contracted_node
+   built, and the specifications recorded BEFORE the contraction partition its legs *)
+Theorem contract_specs_partition s a b c s1 na nb u v :
+  aget a (nodes s) = Some na -> aget b (nodes s) = Some nb -> pair_ok a na b nb ->
+  legs_before_combination s a b = Some (u, v) -> contract_nodes s a b c = Some s1 ->
+  exists nn lu lv, aget c (nodes s1) = Some nn /\ find_leg_values nn u = Some lu /\ find_leg_values nn v = Some lv /\
+                   Permutation (lu ++ lv) (seq 0 (nlegs na + nlegs nb - 2)).
+Proof.
+  intros Ha Hb Hok Hl Hc. unfold legs_before_combination in Hl. rewrite Ha, Hb in Hl.
+  unfold contract_nodes in Hc. unfold determine_parentage in Hc. rewrite Ha, Hb in Hc.
+  assert (Hne : a <> b) by apply (po_ne _ _ _ _ Hok).
+  destruct (po_adj _ _ _ _ Hok) as [(Hin & Hpb & Hnin & Hpa)|(Hin & Hpa & Hnin & Hpb)].
+  - (* a is the parent *)
+    rewrite Hpb, Nat.eqb_refl in Hc.
+    destruct (access s a) as [[[s' pn] pt]|] eqn:A1; [|discriminate].
+    destruct (access s' b) as [[[s'' cn] ct]|] eqn:A2; [|discriminate].
+    destruct (neighbour_index pn b); [|discriminate]. destruct (s_tensordot pt ct _ 0) as [nt|]; [|discriminate].
+    rewrite Nat.eqb_refl in Hc.
+    destruct (create_contracted_node _ pn cn b true) as [nn|] eqn:Hn; [|discriminate].
+    destruct (replace_node_in_neighbours _ c a true); [|discriminate]. destruct (replace_node_in_neighbours _ c b true); [|discriminate].
+    injection Hc as <-. cbn [nodes upd_nodes].
+    destruct (access_node_record _ _ _ _ _ _ A1 Ha) as [Hpp Hpc].
+    assert (Hb' : aget b (nodes s') = Some nb).
+    { destruct (access_nodes _ _ _ _ _ A1) as (-> & _). rewrite aget_aset_other by congruence. exact Hb. }
+    destruct (access_node_record _ _ _ _ _ _ A2 Hb') as [_ Hcc].
+    assert (Htop : memb b (children na) = true) by (apply memb_true_In; exact Hin).
+    pose proof (fun shp => lbc_partition a na b nb u v shp pn cn nn Hok Hl) as P. cbv zeta in P. rewrite Htop in P.
+    destruct (P _ Hpp Hpc Hcc Hn) as (lu & lv & H1 & H2 & H3).
+    exists nn, lu, lv. split; [apply aget_aset_same|]. auto.
+  - (* b is the parent *)
+    assert (E1 : (match parent nb with Some p => Nat.eqb p a | None => false end) = false).
+    { destruct (parent nb) as [p|]; [|reflexivity]. apply Nat.eqb_neq. congruence. }
+    rewrite E1, Hpa, Nat.eqb_refl in Hc.
+    destruct (access s b) as [[[s' pn] pt]|] eqn:A1; [|discriminate].
+    destruct (access s' a) as [[[s'' cn] ct]|] eqn:A2; [|discriminate].
+    destruct (neighbour_index pn a); [|discriminate]. destruct (s_tensordot pt ct _ 0) as [nt|]; [|discriminate].
+    assert (E2 : Nat.eqb b a = false) by (apply Nat.eqb_neq; congruence). rewrite E2 in Hc.
+    destruct (create_contracted_node _ pn cn a false) as [nn|] eqn:Hn; [|discriminate].
+    destruct (replace_node_in_neighbours _ c b true); [|discriminate]. destruct (replace_node_in_neighbours _ c a true); [|discriminate].
+    injection Hc as <-. cbn [nodes upd_nodes].
+    destruct (access_node_record _ _ _ _ _ _ A1 Hb) as [Hpp Hpc].
+    assert (Ha' : aget a (nodes s') = Some na).
+    { destruct (access_nodes _ _ _ _ _ A1) as (-> & _). rewrite aget_aset_other by congruence. exact Ha. }
+    destruct (access_node_record _ _ _ _ _ _ A2 Ha') as [_ Hcc].
+    assert (Htop : memb b (children na) = false) by (apply memb_false_nIn; exact Hnin).
+    pose proof (fun shp => lbc_partition a na b nb u v shp pn cn nn Hok Hl) as P. cbv zeta in P. rewrite Htop in P.
+    destruct (P _ Hpp Hpc Hcc Hn) as (lu & lv & H1 & H2 & H3).
+    exists nn, lu, lv. split; [apply aget_aset_same|]. auto.
+Qed.
+
+(* TEBD._apply_one_trotter_step_two_site restores both nodes *)
+Theorem two_site_gate_restores contr s a b g s1 s2 s3 na nb :
+  aget a (nodes s) = Some na -> aget b (nodes s) = Some nb -> pair_ok a na b nb ->
+  contr <> a -> contr <> b ->
+  two_site_stages contr s a b g = Some (s1, s2, s3) ->
+  exists na' nb', aget a (nodes s3) = Some na' /\ aget b (nodes s3) = Some nb' /\
+    parent na' = parent na /\ Permutation (children na') (children na) /\
+    parent nb' = parent nb /\ Permutation (children nb') (children nb) /\
+    root s3 = (if is_root na then Some a else if is_root nb then Some b else root s2).
+Proof.
+  intros Ha Hb Hok Hca Hcb H. unfold two_site_stages in H.
+  destruct (legs_before_combination s a b) as [[u v]|] eqn:Hl; [|discriminate].
+  destruct (contract_nodes s a b contr) as [t1|]; [|discriminate].
+  destruct (absorb_open t1 contr (t_shape g)) as [t2|]; [|discriminate].
+  destruct (split_nodes t2 contr u v a b (t_kind g) Reduced (t_bond g)) as [t3|] eqn:Hs; [|discriminate].
+  injection H as <- <- <-. unfold legs_before_combination in Hl. rewrite Ha, Hb in Hl.
+  eapply two_site_split_restores; eauto.
+Qed.
+
+(* ---- the executable form of pair_ok is sound ------------------------------------------------------------ *)
+Lemma nodupb_sound l : nodupb l = true -> NoDup l.
+Proof.
+  induction l as [|x t IH]; intros H; [constructor|]. cbn in H. apply andb_true_iff in H. destruct H as [H1 H2].
+  constructor; [|auto]. apply negb_true_iff in H1. apply memb_false_nIn. exact H1.
+Qed.
+
+Lemma opt_id_eqb_spec a b : opt_id_eqb a b = true <-> a = b.
+Proof.
+  destruct a as [x|], b as [y|]; cbn; split; intros H; try discriminate; try reflexivity.
+  - apply Nat.eqb_eq in H. congruence.
+  - injection H as ->. apply Nat.eqb_refl.
+Qed.
+Lemma opt_id_neqb_spec a b : negb (opt_id_eqb a b) = true <-> a <> b.
+Proof. rewrite negb_true_iff. rewrite <- opt_id_eqb_spec. destruct (opt_id_eqb a b); split; congruence. Qed.
+Lemma nmemb_spec x l : negb (memb x l) = true <-> ~ In x l.
+Proof. rewrite negb_true_iff. apply memb_false_nIn. Qed.
+
+Theorem pair_okb_sound a na b nb : pair_okb a na b nb = true -> pair_ok a na b nb.
+Proof.
+  unfold pair_okb. rewrite !andb_true_iff.
+  intros [[[[[[[[[[[[H1 H2] H3] H4] H5] H6] H7] H8] H9] H10] H11] H12] H13].
+  constructor.
+  - apply negb_true_iff, Nat.eqb_neq in H1. exact H1.
+  - apply nodupb_sound. exact H2.
+  - apply nodupb_sound. exact H3.
+  - intros x Hx Hy. rewrite forallb_forall in H4. specialize (H4 x Hx). apply nmemb_spec in H4. contradiction.
+  - split; [apply nmemb_spec; exact H5|apply opt_id_neqb_spec; exact H6].
+  - split; [apply nmemb_spec; exact H7|apply opt_id_neqb_spec; exact H8].
+  - intros p Hp. rewrite Hp in H9. apply andb_true_iff in H9. destruct H9 as [Ha Hb]. split; [apply nmemb_spec; exact Ha|].
+    intros Hne. apply orb_true_iff in Hb. destruct Hb as [Hb|Hb]; [apply Nat.eqb_eq in Hb; contradiction|apply nmemb_spec; exact Hb].
+  - intros p Hp. rewrite Hp in H10. apply andb_true_iff in H10. destruct H10 as [Ha Hb]. split; [apply nmemb_spec; exact Ha|].
+    intros Hne. apply orb_true_iff in Hb. destruct Hb as [Hb|Hb]; [apply Nat.eqb_eq in Hb; contradiction|apply nmemb_spec; exact Hb].
+  - apply orb_true_iff in H11. rewrite !andb_true_iff in H11.
+    destruct H11 as [[[[Ha Hb] Hc] Hd]|[[[Ha Hb] Hc] Hd]]; [left|right];
+      (split; [apply memb_true_In; exact Ha|]); (split; [apply opt_id_eqb_spec; exact Hb|]);
+      (split; [apply nmemb_spec; exact Hc|apply opt_id_neqb_spec; exact Hd]).
+  - apply Nat.leb_le. exact H12.
+  - apply Nat.leb_le. exact H13.
 Qed.
